@@ -156,11 +156,16 @@ class Option(Evaluatable[A]):
         default key is not an Evaluatable, it is returned as-is.
         """
         try:
-            value = resolve(get_dotted_key(self.key, options), options)
+            value = get_dotted_key(self.key, options)
         except KeyError:
             if self.default is MISSING:
                 raise KeyNotFoundError(self.key, self)
             value = self.default.evaluate(options)
+        else:
+            try:
+                value = resolve(value, options)
+            except KeyError as e:
+                raise KeyNotFoundError((*e.args, self.key)[0], self) from e
 
         TypeValidationRequest(value, self.type, options).run()
         self._enforce_domain(value, options)
